@@ -235,19 +235,60 @@ func c10StmtString(st c10Stmt) string {
 }
 
 type c10Stored struct {
-	el   c10Elem
-	path *Path
-	opts *PolicyOptions
-	snap []byte
+	el    c10Elem
+	path  *Path
+	opts  *PolicyOptions
+	snap  []byte
+	spare int
+	attrs []any // identity of the attribute objects of the stored path (cheap per-program check)
+}
+
+func c10NewStored(el c10Elem, spare int) *c10Stored {
+	s := &c10Stored{el: el, opts: c10Options(el.E), spare: spare}
+	s.rebuild()
+	return s
+}
+
+func (s *c10Stored) rebuild() {
+	s.path = c10MakePath(s.el.R, s.spare)
+	s.snap = c10Snapshot(s.path)
+	s.attrs = s.attrs[:0]
+	for _, a := range s.path.pathAttrs {
+		s.attrs = append(s.attrs, a)
+	}
+}
+
+// touched: did an evaluation replace / add / delete attribute objects of the stored path itself?
+// (cheap; content changes inside an attribute object are found by the periodic full snapshot)
+func (s *c10Stored) touched() bool {
+	if len(s.path.pathAttrs) != len(s.attrs) || len(s.path.dels) != 0 || s.path.parent != nil {
+		return true
+	}
+	for i, a := range s.path.pathAttrs {
+		if a != s.attrs[i] {
+			return true
+		}
+	}
+	return false
 }
 
 func c10StoreUniverse(spare int) []*c10Stored {
 	var l []*c10Stored
 	for _, el := range c10Universe() {
-		p := c10MakePath(el.R, spare)
-		l = append(l, &c10Stored{el, p, c10Options(el.E), c10Snapshot(p)})
+		l = append(l, c10NewStored(el, spare))
 	}
 	return l
+}
+
+// c10QuickVerifyStored runs after every program: a stored route whose attribute objects were touched is
+// reported and rebuilt, so that one defect cannot snowball through the following programs.
+func c10QuickVerifyStored(c *vr.Report, part string, st []*c10Stored, replay any, what string) {
+	for _, s := range st {
+		if s.touched() {
+			c.Violationf("C10:"+part+":stored-route-changed-by-evaluation", replay, "the stored route %s was modified in place by evaluating %s", s.el.R.Name, what)
+			s.rebuild()
+		}
+	}
 }
 
 // c10VerifyStored: the stored routes were shared by every evaluation of this worker; none may have changed.
@@ -255,7 +296,7 @@ func c10VerifyStored(c *vr.Report, part string, st []*c10Stored) {
 	for _, s := range st {
 		if !bytes.Equal(c10Snapshot(s.path), s.snap) {
 			c.Violationf("C10:"+part+":stored-route-changed-by-evaluation", s.el, "the stored route %s serialises differently after policy evaluations", s.el.R.Name)
-			s.snap = c10Snapshot(s.path)
+			s.rebuild()
 		}
 	}
 }
@@ -361,6 +402,7 @@ func TestVerif_C10_Single(t *testing.T) {
 								nApplied++
 							}
 						}
+						c10QuickVerifyStored(c, "single", stored, c10SingleCase{Stmt: st, Elem: stored[0].el}, c10StmtString(st))
 						id := fmt.Sprintf("%d/%d", pass, n)
 						switch {
 						case nApplied == 0:
@@ -553,9 +595,7 @@ func TestVerif_C10_Skeleton(t *testing.T) {
 		routes[rt.Name] = rt
 	}
 	mk := func(name string) *c10Stored {
-		el := c10Elem{routes[name], c10Envs()[0]}
-		p := c10MakePath(el.R, 0)
-		return &c10Stored{el, p, c10Options(el.E), c10Snapshot(p)}
+		return c10NewStored(c10Elem{routes[name], c10Envs()[0]}, 0)
 	}
 	build := func(mode string, cfg oc.RoutingPolicy, as []c10Assign) (*RoutingPolicy, error) {
 		if mode == "incremental" {
@@ -650,6 +690,7 @@ func TestVerif_C10_Skeleton(t *testing.T) {
 							}
 						}
 						c.Outcome("build:" + mode)
+						c10QuickVerifyStored(c, "skeleton", stored, c10SkelCase{prog, "R1", mode}, c10ProgString(prog))
 					}
 					if c.WantSample() && idx%50021 == 11 && split == k {
 						c.Sample(map[string]any{"program": c10ProgString(prog)})
